@@ -34,7 +34,14 @@ type BoundMethod struct {             // method value / interface method closure
 	Recv Value
 }
 
+// Maps, channels and map iterators are mutable; register values refer to them through indices into
+// per-state tables so that every register value is immutable and states can be cloned cheaply.
+type MapRef int  // 0 = nil map
+type ChanRef int // 0 = nil channel
+type IterRef int
+
 type MapObj struct {
+	gen  int
 	id   int
 	Keys []Value
 	Vals []Value
@@ -43,6 +50,7 @@ type MapObj struct {
 }
 
 type ChanObj struct {
+	gen    int
 	id     int
 	cap    int
 	buf    []Value
@@ -91,6 +99,61 @@ func (st *State) wobj(o *Obj) *Obj {
 	}
 	st.objs[o.id] = &n
 	return &n
+}
+
+func (st *State) mapR(r MapRef) *MapObj {
+	if r == 0 {
+		return nil
+	}
+	return st.maps[r]
+}
+
+func (st *State) mapW(r MapRef) *MapObj {
+	m := st.maps[r]
+	if m.gen != st.gen {
+		n := *m
+		n.gen = st.gen
+		n.Keys = append([]Value(nil), m.Keys...)
+		n.Vals = append([]Value(nil), m.Vals...)
+		st.maps[r] = &n
+		return &n
+	}
+	return m
+}
+
+func (st *State) newMap(KT, VT types.Type) MapRef {
+	if len(st.maps) == 0 {
+		st.maps = append(st.maps, nil)
+	}
+	st.maps = append(st.maps, &MapObj{gen: st.gen, KT: KT, VT: VT})
+	return MapRef(len(st.maps) - 1)
+}
+
+func (st *State) chanR(r ChanRef) *ChanObj {
+	if r == 0 {
+		return nil
+	}
+	return st.chans[r]
+}
+
+func (st *State) chanW(r ChanRef) *ChanObj {
+	c := st.chans[r]
+	if c.gen != st.gen {
+		n := *c
+		n.gen = st.gen
+		n.buf = append([]Value(nil), c.buf...)
+		st.chans[r] = &n
+		return &n
+	}
+	return c
+}
+
+func (st *State) newChan(cap int, ET types.Type) ChanRef {
+	if len(st.chans) == 0 {
+		st.chans = append(st.chans, nil)
+	}
+	st.chans = append(st.chans, &ChanObj{gen: st.gen, cap: cap, ET: ET})
+	return ChanRef(len(st.chans) - 1)
 }
 
 func (o *Obj) setByte(i int, b *Term) {
@@ -348,7 +411,7 @@ func (st *State) loadAt(addr uint64, T types.Type) Value {
 			st.abort(abUnsupported, "symbolic map value")
 		}
 		if h.C == 0 {
-			return (*MapObj)(nil)
+			return MapRef(0)
 		}
 		return st.fromHandle(h.C)
 	case *types.Chan:
@@ -357,7 +420,7 @@ func (st *State) loadAt(addr uint64, T types.Type) Value {
 			st.abort(abUnsupported, "symbolic chan value")
 		}
 		if h.C == 0 {
-			return (*ChanObj)(nil)
+			return ChanRef(0)
 		}
 		return st.fromHandle(h.C)
 	}
@@ -444,15 +507,15 @@ func (st *State) storeAt(addr uint64, T types.Type, v Value) {
 			st.abort(abUnsupported, fmt.Sprintf("store func value %T", v))
 		}
 	case *types.Map:
-		m := v.(*MapObj)
-		if m == nil {
+		m := v.(MapRef)
+		if m == 0 {
 			st.storeBits(addr, 8, st.zero64)
 		} else {
 			st.storeBits(addr, 8, st.c.Const(64, st.handleFor(m)))
 		}
 	case *types.Chan:
-		m := v.(*ChanObj)
-		if m == nil {
+		m := v.(ChanRef)
+		if m == 0 {
 			st.storeBits(addr, 8, st.zero64)
 		} else {
 			st.storeBits(addr, 8, st.c.Const(64, st.handleFor(m)))
@@ -465,7 +528,7 @@ func (st *State) storeAt(addr uint64, T types.Type, v Value) {
 // boxHandle boxes a non-pointer value held in an interface.
 func (st *State) boxHandle(v Value) uint64 {
 	switch x := v.(type) {
-	case *Closure, *MapObj, *ChanObj, *BoundMethod:
+	case *Closure, MapRef, ChanRef, *BoundMethod:
 		return st.handleFor(x)
 	}
 	b := &box{v}
@@ -525,9 +588,9 @@ func (st *State) zero(T types.Type) Value {
 	case *types.Signature:
 		return (*Closure)(nil)
 	case *types.Map:
-		return (*MapObj)(nil)
+		return MapRef(0)
 	case *types.Chan:
-		return (*ChanObj)(nil)
+		return ChanRef(0)
 	case *types.Tuple:
 		a := make(Agg, u.Len())
 		for i := range a {
